@@ -646,7 +646,12 @@ def fs_random_history(rng, n):
         elif k < 0.21:
             h.append(f"fscreateabs {hx(fs_path(rng, rng.choice(DIRN), decorate=False))}")
         elif k < 0.33:
-            h.append(f"fsrmdir {hx(fs_path(rng, rng.choice(DIRN + DIRN + FILEN + ['i'] + list(OUT_LINKS))))} {rng.choice('011')}")
+            rp = fs_path(rng, rng.choice(DIRN + DIRN + FILEN + ['i'] + list(OUT_LINKS)))
+            if rng.random() < 0.12 and rp.split("/")[-1] in DIRN and "i" not in rp.split("/"):
+                rp += rng.choice(["/.", "/./", "/"])          # rmdir answers EINVAL for a last component "."
+                # ("x/.." is left to the corpus: the path runs through the tree that is being removed, so the result
+                #  depends on the order in which readdir reports the entries)
+            h.append(f"fsrmdir {hx(rp)} {rng.choice('011')}")
         elif k < 0.40:
             h.append(f"fsunlink {hx(fs_path(rng, allow_out_final=True))}")
         elif k < 0.52:
@@ -691,6 +696,7 @@ FS_SMALL = [f"fscreate {hx(p)}" for p in ["a", "a/f", "a/f/x", "c/b/a", "a/l", "
            ["fsrmdir " + hx("a/f\\d") + " 1", "fsunlink " + hx("a\\f"), "fsrename " + hx("a/f") + " " + hx("a\\f") + " 1",
             "fscopy " + hx("a/f") + " " + hx("a/f\\g") + " 1"] + \
            [f"fsrmdir {hx(p)} {r}" for p in ["a", "a/b", "a/l", "a/f", "c", "i"] for r in "01"] + \
+           [f"fsrmdir {hx(p)} 1" for p in ["a/l/.", "a/l/", "a/.", "a/b/.", "i/.", "a/b/../b", "a/./b/"]] + \
            [f"fsunlink {hx(p)}" for p in ["a/f", "a/l", "a", "a/b/m", "n", "zz"]] + \
            [f"fsrename {hx(a)} {hx(b)} {f}" for a, b in [("a/f", "a/h"), ("zz", "a/h"), ("a/f", "a/b/g"), ("a", "c"), ("a/l", "a/m"), ("a/f", "a/f")] for f in "01"] + \
            [f"fscopy {hx(a)} {hx(b)} {f}" for a, b in [("a/f", "a/h"), ("a", "a/h"), ("a/f", "a/b/g"), ("zz", "a/h"), ("a/b/m", "h"), ("a/l", "h"), ("a/f", "a/b"), ("a", "j"), ("a/f", "j")] for f in "01"] + \
